@@ -229,7 +229,7 @@ func gen(c *core.Ctx) error {
 			c.Sample(d)
 		}
 	}
-	keyed := ss.Setup{Kind: "keyed", Key: key, PreAB: []ss.Data{ss.Lit([]byte("q"))}, PreBA: []ss.Data{ss.Lit([]byte("r"))}}
+	keyed := ss.Setup{Kind: "keyed", Key: key, PreAB: []ss.Data{ss.Lit([]byte("q"))}, PreBA: []ss.Data{ss.Lit([]byte("r"))}, ReadMax: 2, Ctx: true}
 	keyed0 := ss.Setup{Kind: "keyed", Key: key}
 	apis := []string{"complete", "msgall", "sre"}
 	// 1. hand-off at every boundary of histories with nAB, nBA messages before
